@@ -260,7 +260,7 @@ func TestC04(t *testing.T) {
 			steps[i] = o.Replay()
 			st.Count("op:" + o.Op.Kind)
 			if o.Op.Kind == "Get" || o.Op.Kind == "GetMany" {
-				st.Count("path:" + []string{"plain", "session", "ctx-session"}[o.Op.Path])
+				st.Count("path:" + []string{"plain", "session", "ctx-session", "foreign-ctx", "foreign-ctx-session"}[o.Op.Path])
 			}
 			if o.Fetched {
 				st.Count("exchange-asked")
